@@ -3,8 +3,8 @@
 EXTENDS FormsDef, Json, IOUtils
 Rec == ndJsonDeserialize(IOEnv.TRACE)
 
-VARIABLES l, bad, regs
-Init == l = 1 /\ bad = <<>> /\ regs = [i \in 1..NREG |-> IZero]
+VARIABLES l, bad, regs, gregs
+Init == l = 1 /\ bad = <<>> /\ regs = [i \in 1..NREG |-> IZero] /\ gregs = <<>>
 Next == /\ l <= Len(Rec)
         /\ LET e == Rec[l] IN
            IF Fam(e) = "clone"
@@ -15,14 +15,25 @@ Next == /\ l <= Len(Rec)
                              ELSE IF ok THEN bad
                              ELSE Append(bad, [i |-> l, why |-> IF IEq(got[e.dst], exp[e.dst]) THEN "clone-not-independent" ELSE "clone-wrong-value"])
                    /\ regs' = got                 \* re-synchronise from the observation
+                   /\ gregs' = gregs
+           \* the composite types (RBig, Relaxed, FBig, DBig): registers are wire values compared structurally
+           ELSE IF Fam(e) = "cloneg"
+           THEN LET got == [i \in 1..NREG |-> e.regs[i]]
+                    exp == IF e.op = "init" THEN got ELSE CloneStepG(gregs, e)
+                IN /\ bad' = IF e.op = "panicked" THEN Append(bad, [i |-> l, why |-> "clone-step-panicked"])
+                             ELSE IF got = exp THEN bad
+                             ELSE Append(bad, [i |-> l, why |-> IF got[e.dst] = exp[e.dst] THEN "clone-not-independent" ELSE "clone-wrong-value"])
+                   /\ gregs' = got
+                   /\ regs' = regs
            ELSE /\ regs' = regs
+                /\ gregs' = gregs
                 /\ bad' = IF Fam(e) = "driver" THEN Append(bad, [i |-> l, why |-> "operand-construction-panicked"])
                           ELSE IF "outs" \notin DOMAIN e THEN bad        \* single-form query events
                           ELSE IF Disagreement(e) THEN Append(bad, [i |-> l, why |-> "forms-disagree"])
                           ELSE IF UnknownForms(e) # {} THEN Append(bad, [i |-> l, why |-> "form-not-in-inventory"])
                           ELSE bad
         /\ l' = l + 1
-Spec == Init /\ [][Next]_<<l, bad, regs>>
+Spec == Init /\ [][Next]_<<l, bad, regs, gregs>>
 Verdict == l > Len(Rec) => PrintT(<<"VERDICT", ToJson([total |-> Len(Rec), bad |-> bad])>>)
 Complete == IF TLCGet("stats").diameter - 1 = Len(Rec) THEN TRUE
             ELSE PrintT(<<"TRUNCATED", TLCGet("stats").diameter>>) /\ FALSE
